@@ -60,6 +60,14 @@ func genC13(dir, tier string, seed int64) {
 		}
 		c.nodes = []snode{{op: 1, attr: 3, nout: 1, in: names, out: []string{"y"}}}
 		c.outputs = []string{"y"}
+		// half of the cases: a Run with the exact, valid supplied set precedes the observed call on the
+		// same Model (what Run enforces must not depend on earlier Runs)
+		if r.Intn(2) == 0 {
+			c.warm = map[string]stens{}
+			for k, v := range c.feed {
+				c.warm[k] = v
+			}
+		}
 		// perturb the supplied set
 		variant := r.Intn(8)
 		pick := names[r.Intn(len(names))]
